@@ -25,6 +25,12 @@ REPO = "/dev/shm/simverif-mutants-wt"
 SCRATCH = "/dev/shm/simverif-mutants-out"
 
 # (name, property, file, old, new)
+# Three hand-written mutants are NOT caught and were examined (session 3):
+#   input-rails-after-block-continue (C01): behaviour-neutral - with `"stop"` never recognised in compute_next_steps a blocked turn still
+#       ends with the refusal and no later rail / LLM call in all four generation modes (other mechanisms stop the turn);
+#   batch-full-off-by-one (C19): lets a batch exceed max_batch_size - the property does not bound batch sizes;
+#   bot-message-rendered-as-template (C17): the pattern hits the `general` fallback of generate_intent_steps_message (single-call
+#       mode in a configuration without user message examples), a mode outside the ones C17 quantifies over.
 HAND = [
     ("skip-first-output-rail", "C02", "nemoguardrails/rails/llm/llm_flows.co", "define subflow run output rails\n  \"\"\"Runs all the output rails in a sequential order. \"\"\"\n  $i = 0", "define subflow run output rails\n  \"\"\"Runs all the output rails in a sequential order. \"\"\"\n  $i = 1"),
     ("input-rails-after-block-continue", "C01", "nemoguardrails/colang/v1_0/runtime/flows.py", "        if last_event[\"type\"] == \"BotIntent\" and last_event[\"intent\"] == \"stop\":\n            # In this case, we remove any next steps\n            next_steps = []", "        if last_event[\"type\"] == \"BotIntent\" and last_event[\"intent\"] == \"stopp\":\n            # In this case, we remove any next steps\n            next_steps = []"),
